@@ -9,5 +9,5 @@ git -C /repo apply "$PWD/$d/patch.diff" || { echo "patch does not apply"; exit 2
 trap 'git -C /repo checkout -- . ; git -C /repo clean -fdq genlm tests 2>/dev/null' EXIT
 (cd /repo && timeout 120 /venv/bin/python "$OLDPWD/$d/demo.py" >/dev/null 2>&1); echo "$id demo rc=$? (non-zero expected)"
 for c in $checks; do
-  out=$(timeout 1500 /venv/bin/python harness/check.py $c 2>/dev/null); echo "$id $c rc=$? $(echo "$out" | grep -c KNOWN) known; $(echo "$out" | grep VIOLATION | head -1)"
+  out=$(VERIF_OUT=/tmp/mut/scratch_repo_mode timeout 1500 /venv/bin/python harness/check.py $c 2>/dev/null); echo "$id $c rc=$? $(echo "$out" | grep -c KNOWN) known; $(echo "$out" | grep VIOLATION | head -1)"
 done
